@@ -100,6 +100,7 @@ type scenario struct {
 	MaxSteps  int
 	MaxRound  uint64
 	Crash     map[int]time.Duration // honest id -> time after which it stops (crash-silent), pre-GST only
+	RebroadcastAfterRound int // -1: the default (3); otherwise the round after which rebroadcast is scheduled without waiting for the phase timeout
 	SlowFloor bool // before stabilisation every message takes between 80% and 100% of PreGSTMaxDelay (a uniformly slow network)
 	Late      int  // honest id that starts the instance only long after stabilisation (0 = nobody)
 	Isolate   bool // the network (adversarial scheduler) holds back every honest message addressed to the relabelling victim for a long time
@@ -548,6 +549,10 @@ func (w *world) newParticipant(h *host) *gpbft.Participant {
 	opts := []gpbft.Option{gpbft.WithDelta(time.Second), gpbft.WithRebroadcastBackoff(1.3, 0, 3*time.Second, 30*time.Second)}
 	if w.sc.Lookahead > 0 {
 		opts = append(opts, gpbft.WithMaxLookaheadRounds(w.sc.Lookahead))
+	}
+	if w.sc.RebroadcastAfterRound >= 0 {
+		// the "late round" regime (rebroadcast before the phase time-out) from round 1 or 2 on, where ordinary runs do get
+		opts = append(opts, gpbft.WithRebroadcastImmediatelyAfterRound(uint64(w.sc.RebroadcastAfterRound)))
 	}
 	p, err := gpbft.NewParticipant(h, opts...)
 	if err != nil {
